@@ -24,6 +24,7 @@ type c18Op struct {
 	Raw    []byte
 	Delay  int // resize: number of blocks after which the encoder learns the new limit
 	CutAt  int // truncate: number of bytes of the block that arrive before Close
+	Mute   int // block: >= 0: the receiver switches emission off after that many fields of this block (as a header-list limit does) and on again for the next block; -1: never
 }
 
 func drawField(t *rapid.T) rhpack.HeaderField {
@@ -78,9 +79,12 @@ func drawC18(t *rapid.T) *Case {
 		switch k := rapid.IntRange(0, 9).Draw(t, "op"); {
 		case k <= 5:
 			nf := rapid.IntRange(0, 8).Draw(t, "nfields")
-			op := c18Op{Kind: "block", Cuts: drawCuts(t, "cuts")}
+			op := c18Op{Kind: "block", Cuts: drawCuts(t, "cuts"), Mute: -1}
 			for j := 0; j < nf; j++ {
 				op.Fields = append(op.Fields, drawField(t))
+			}
+			if nf > 0 && drawBool(t, "mute", 15) {
+				op.Mute = rapid.IntRange(0, nf-1).Draw(t, "muteafter")
 			}
 			ops = append(ops, op)
 		case k <= 7:
@@ -96,6 +100,13 @@ func drawC18(t *rapid.T) *Case {
 				op.Fields = append(op.Fields, drawField(t))
 			}
 			ops = append(ops, op)
+		case k == 9 && drawBool(t, "helper", 35):
+			// the exported Huffman helpers share the package's pooled buffers with the decoders
+			raw := rapid.SliceOfN(rapid.Byte(), 0, 40).Draw(t, "hraw")
+			if drawBool(t, "hvalid", 60) {
+				raw = rhpack.AppendHuffmanString(nil, drawToken(t, "htext", rapid.IntRange(1, 40).Draw(t, "htextlen")))
+			}
+			ops = append(ops, c18Op{Kind: "helper", Raw: raw})
 		default:
 			raw := rapid.SliceOfN(rapid.Byte(), 0, 60).Draw(t, "raw")
 			if drawBool(t, "program", 60) {
@@ -110,13 +121,15 @@ func drawC18(t *rapid.T) *Case {
 	for _, op := range ops {
 		switch op.Kind {
 		case "block":
-			fmt.Fprintf(&sb, " block(%d fields, cuts %v)", len(op.Fields), head(op.Cuts, 4))
+			fmt.Fprintf(&sb, " block(%d fields, cuts %v, mute %d)", len(op.Fields), head(op.Cuts, 4), op.Mute)
 		case "resize":
 			fmt.Fprintf(&sb, " resize(%d, encoder learns after %d blocks)", op.Size, op.Delay)
 		case "truncate":
 			fmt.Fprintf(&sb, " truncate(%d fields, Close after %d bytes)", len(op.Fields), op.CutAt)
 		case "garbage":
 			fmt.Fprintf(&sb, " garbage(% x)", head(op.Raw, 12))
+		case "helper":
+			fmt.Fprintf(&sb, " huffman-helpers(% x)", head(op.Raw, 12))
 		}
 	}
 	c.Summary = sb.String()
@@ -307,8 +320,20 @@ func runC18(initial uint32, ops []c18Op) (vs []Violation, stats map[string]int) 
 	// decoder A: fragments as drawn; decoder B: whole blocks; decoder X: upstream reference
 	var gotA, gotB []rhpack.HeaderField
 	var gotX []xhpack.HeaderField
-	decA := rhpack.NewDecoder(initial, func(f rhpack.HeaderField) { gotA = append(gotA, f) })
-	decB := rhpack.NewDecoder(initial, func(f rhpack.HeaderField) { gotB = append(gotB, f) })
+	mute := -1
+	var decA, decB *rhpack.Decoder
+	decA = rhpack.NewDecoder(initial, func(f rhpack.HeaderField) {
+		gotA = append(gotA, f)
+		if mute > 0 && len(gotA) >= mute {
+			decA.SetEmitEnabled(false)
+		}
+	})
+	decB = rhpack.NewDecoder(initial, func(f rhpack.HeaderField) {
+		gotB = append(gotB, f)
+		if mute > 0 && len(gotB) >= mute {
+			decB.SetEmitEnabled(false)
+		}
+	})
 	decX := xhpack.NewDecoder(initial, func(f xhpack.HeaderField) { gotX = append(gotX, f) })
 	allowed := initial
 	type pending struct {
@@ -377,6 +402,11 @@ func runC18(initial uint32, ops []c18Op) (vs []Violation, stats map[string]int) 
 			}
 			blk := append([]byte(nil), wire.Bytes()...)
 			gotA, gotB, gotX = nil, nil, nil
+			mute = op.Mute
+			if mute == 0 {
+				decA.SetEmitEnabled(false)
+				decB.SetEmitEnabled(false)
+			}
 			errA := feed(decA, blk, op.Cuts)
 			if errA == nil {
 				errA = decA.Close()
@@ -389,15 +419,25 @@ func runC18(initial uint32, ops []c18Op) (vs []Violation, stats map[string]int) 
 			if errX == nil {
 				errX = decX.Close()
 			}
+			decA.SetEmitEnabled(true)
+			decB.SetEmitEnabled(true)
 			if errA != nil {
 				bad("roundtrip_error", "op %d: decoding what the encoder produced failed: %v", oi, errA)
 				return
 			}
-			if !sameFields(gotA, op.Fields) {
+			if op.Mute >= 0 {
+				// emission was switched off part-way: the fields up to there were emitted, the rest
+				// was decoded silently - the tables must have followed all the same
+				if !sameFields(gotA, op.Fields[:op.Mute]) || !sameFields(gotB, op.Fields[:op.Mute]) {
+					bad("muted_block_fields", "op %d: emission switched off after %d fields, emitted %d (fragmented) / %d (whole)", oi, op.Mute, len(gotA), len(gotB))
+					return
+				}
+				stats["blocks_with_emission_switched_off"]++
+			} else if !sameFields(gotA, op.Fields) {
 				bad("roundtrip_fields", "op %d: decoded %d fields differ from the %d encoded (first decoded %v)", oi, len(gotA), len(op.Fields), head(gotA, 2))
 				return
 			}
-			if errB != nil || !sameFields(gotA, gotB) {
+			if errB != nil || (op.Mute < 0 && !sameFields(gotA, gotB)) {
 				bad("fragment_dependence", "op %d: fragmented decoding (%v, %d fields) differs from whole-block decoding (%v, %d fields)", oi, errA, len(gotA), errB, len(gotB))
 				return
 			}
@@ -474,6 +514,17 @@ func runC18(initial uint32, ops []c18Op) (vs []Violation, stats map[string]int) 
 			if !exact {
 				stats["truncated_inside_a_field"]++
 			}
+		case "helper":
+			var o1, o2 bytes.Buffer
+			_, e1 := rhpack.HuffmanDecode(&o1, op.Raw)
+			_, e2 := xhpack.HuffmanDecode(&o2, op.Raw)
+			s1, e3 := rhpack.HuffmanDecodeToString(op.Raw)
+			s2, e4 := xhpack.HuffmanDecodeToString(op.Raw)
+			if (e1 == nil) != (e2 == nil) || (e3 == nil) != (e4 == nil) || (e1 == nil && o1.String() != o2.String()) || (e3 == nil && s1 != s2) {
+				bad("huffman_helper_differs", "HuffmanDecode(% x): %q / %v, reference %q / %v; ToString %q / %v, reference %q / %v", op.Raw, o1.String(), e1, o2.String(), e2, s1, e3, s2, e4)
+				return
+			}
+			stats["huffman_helper_calls"]++
 		case "garbage":
 			// arbitrary bytes: fragment independence and agreement with the reference
 			var a, b []rhpack.HeaderField
